@@ -218,6 +218,12 @@ func runC08(tier string, seed uint64) {
 					s.PutRaw(b, key, h, bd, -1)
 					snapshot()
 				}
+				// no Content-Length, but the decoded length of a streaming upload (on a plain body and on a framed one):
+				// the length that is missing is still missing
+				s.PutRaw(b, key, [][2]string{{"X-Amz-Decoded-Content-Length", strconv.Itoa(len(body))}}, body, -1)
+				snapshot()
+				s.PutRaw(b, key, [][2]string{{"X-Amz-Content-Sha256", "STREAMING-AWS4-HMAC-SHA256-PAYLOAD"}, {"X-Amz-Decoded-Content-Length", strconv.Itoa(len(body))}}, encodeChunks(splitChunks(body, []int{5})), -1)
+				snapshot()
 				// reader failing after k bytes, for every k
 				for k := 0; k <= len(body); k++ {
 					s.PutRaw(b, key, [][2]string{cl(len(body)), {"Content-MD5", digests["good"]}}, body, k)
